@@ -483,7 +483,12 @@ impl<T: Copy> Buffer<T> {
             s.write_capacity(),
             n
         );
-        for tag in tags {
+        // Only samples `0..n` are committed. A tag positioned at or beyond
+        // `n` belongs to a sample that is not part of this commit (blocks
+        // commonly pass the tags of their whole input window while producing
+        // only part of it). Storing it would attach it to whatever sample is
+        // committed there later, and the input side delivers it again anyway.
+        for tag in tags.iter().filter(|t| t.pos() < n) {
             let pos = (tag.pos() + s.wpos) % s.capacity();
             let tag = Tag::new(pos, tag.key(), tag.val().clone());
             s.tags.entry(pos).or_default().push(tag);
